@@ -23,6 +23,10 @@ func fcConfigs() []Config { return []Config{{Mode: "fwd"}, {Mode: "rev"}} }
 func Families(family string, seed int64, count int) []Driver {
 	rng := rand.New(rand.NewSource(seed*7919 + int64(len(family))))
 	var out []Driver
+	if family == "shapes" {
+		// a fixed enumeration (count is ignored)
+		return shapeScripts(seed)
+	}
 	for i := 0; i < count; i++ {
 		s := rng.Int63()
 		name := fmt.Sprintf("%s-%d-%d", family, seed, i)
